@@ -70,6 +70,8 @@ func c17Special(rng *Rng, n int) []string {
 			}
 		}
 	}
+	// names carrying percent escapes (sent double-encoded, so the server sees them literally)
+	out = append(out, "%61bc", "ab%63", "abc%2Edef", "%2e%2e%2e", "a%00bc", "abc%", "ab%zz", "%41bc", "abc%2Fdef", "abc%25def")
 	out = append(out, "192.168.1.1", "100.200.100.200", "255.255.255.255", "256.100.100.100", "100.100.100",
 		"100.100.100.100.100", "010.100.100.100", "100.100.100.256", "000.000.000.000", "100.100.100.1000",
 		"111.222.033.044", "::1", "fe80::1", "1:2:3:4:5:6:7:8", "aaa.bbb.ccc.ddd", "abc..def", ".abc", "abc.", "abc.-de", "abc.de-",
